@@ -313,14 +313,18 @@ def replay_scale_tril(model, params, clause, info):
 
 
 # ------------------------------------------------------------------------------ KL ------------------------
-@case("C10", clause="kl", expand=lambda ix: [(0,), (1,)], replay=lambda *a: replay_kl(*a), functions=["gpytorch.distributions.multivariate_normal.kl_mvn_mvn"])
-def kl(c, br):
+@case("C10", clause="kl", expand=lambda ix: [(0,), (1,), (0, True), (1, True)], replay=lambda *a: replay_kl(*a), functions=["gpytorch.distributions.multivariate_normal.kl_mvn_mvn"])
+def kl(c, br, rooted=False):
     """KL(p||q) = 1/2 [ log|Sq| - log|Sp| + (mp-mq)^T Sq^{-1} (mp-mq) + sum_c r_c^T Sq^{-1} r_c - k ],  Sp = R R^T, r_c the columns of R
     (the sum over columns is tr(Sq^{-1} Sp) by cyclicity of the trace -- cited lemma)"""
     it, ctx = c.it, c.ctx
     n, b = c.size("n"), c.size("b")
     bs = [b.t] if br else []
     p, q = make_mvn(c, "p", bs, n.t), make_mvn(c, "q", bs, n.t)
+    Rp = None
+    if rooted:  # Sp represented by a non-triangular root R (Sp = R R^T): r_c are the columns of that R
+        Rp = sym_tensor("Rp", bs + [n.t, n.t])
+        p.fields["_covar"].meta["given_root"] = Rp
     res = it.call(ctx, c.func("gpytorch.distributions.multivariate_normal.kl_mvn_mvn"), [p, q], {})
     bi = fresh_in_range(c, bs, "b")
     pc, qc = p.fields["_covar"], q.fields["_covar"]
@@ -331,7 +335,8 @@ def kl(c, br):
     dm = z3.Lambda([vi], p.fields["loc"].at(bi + [vi]) - q.fields["loc"].at(bi + [vi]))
     # columns of the right-hand side [ (mp - mq) | R ]:  column 0 is the mean difference, column c+1 is column c of the root R of Sp
     dmv = lambda r: p.fields["loc"].at(bi + [r]) - q.fields["loc"].at(bi + [r])
-    col = lambda cc: z3.Lambda([vi], z3.If(cc < 1, dmv(vi), z3.If(cc - 1 <= vi, CHOL(Mp, n.t, vi, cc - 1), z3.RealVal(0))))
+    rootcol = (lambda r, cc: Rp.at(bi + [r, cc])) if rooted else (lambda r, cc: z3.If(cc <= r, CHOL(Mp, n.t, r, cc), z3.RealVal(0)))
+    col = lambda cc: z3.Lambda([vi], z3.If(cc < 1, dmv(vi), rootcol(vi, cc - 1)))
     quad_plus_trace = mk_sum(lambda cc: INVQUAD(Mq, col(cc), n.t), 1 + n.t)
     want = (LOGDET(Mq, n.t) - LOGDET(Mp, n.t) + quad_plus_trace - z3.ToReal(n.t)) / 2
     c.prove("kl.rank", z3.BoolVal(len(res.dims) == br))
